@@ -31,6 +31,16 @@ Definition mdname (m : msg) : N :=
   | SetDefaultCommands _ d _ => d
   | RemoveClient _ => 0%N
   end.
+(* player identifier a message is addressed to, if it names one *)
+Definition mplayer (m : msg) : option pid :=
+  match m with
+  | SetState _ _ p _ _ _ | UpdateContentItem _ _ p _ | SetNowPlayingPlayer _ _ p
+  | RemovePlayer _ _ p => Some p
+  | _ => None
+  end.
+(* set-state and content-item-update: the messages that carry a player's state *)
+Definition is_player_update (m : msg) : bool :=
+  match m with SetState _ _ _ _ _ _ | UpdateContentItem _ _ _ _ => true | _ => false end.
 Definition is_rc (m : msg) : bool := match m with RemoveClient _ => true | _ => false end.
 
 Fixpoint spec_active (rh : list msg) : option cid :=
